@@ -490,7 +490,7 @@ Theorem wait_rpc_reply_requeues sc s c v0 v u f l held :
   exists s' v', wait_rpc sc s c v0 u false held = (s', v', Ok tt, sc) /\
                 get_chan (s_chans s') c = Some v' /\
                 c_errs v' = held ++ c_errs v /\
-                c_req v' = c_req v /\ resp_get (c_resp v') u = Some (f :: l) /\
+                c_req v' = c_req v /\ c_resp v' = c_resp v /\
                 s_out s' = s_out s.
 Proof.
   intros Hreg Hr.
